@@ -579,14 +579,14 @@ def run(spec, ctx):
     inj.install()
     try:
         for i in range(spec["n"] * 3):
-            if ctx.expired(0.3):
+            if i >= 16 and ctx.expired(0.3):  # (a minimum runs whatever the load on the machine)
                 break
             zname, factory = (("versioned", dns.versioned.Zone), ("btree", dns.btreezone.Zone))[i % 2]
             interleaved_history(ctx, rng, inj, zname, factory)
     finally:
         inj.uninstall()
     for i in range(spec["n"]):
-        if ctx.expired(1.0):
+        if i >= 2 and ctx.expired(1.0):
             break
         for zname, factory in (("versioned", dns.versioned.Zone), ("btree", dns.btreezone.Zone)):
             try:
